@@ -38,6 +38,23 @@ def fmtItem : Item → String
 def fmtItems (l : List Item) : String :=
   if l.any (· == .panic) then "PANIC" else "|".intercalate (l.map fmtItem)
 
+/-! compact printing for `proto.bigbin`: a binary payload as `@<length>.<checksum>` -/
+
+def fmtBinC (b : Bytes) : String :=
+  s!"@{b.length}.{b.foldl (fun s x => (s * 31 + x.toNat) % 4294967296) 0}"
+
+def fmtFrameC (f : AFrame) : String :=
+  let fs := if f.fields.isEmpty then "_" else ",".intercalate (f.fields.map fun (k, v) => s!"{hex k}={hex v}")
+  let b := match f.binary with | none => "~" | some b => fmtBinC b
+  s!"{fs};{b}"
+
+def fmtItemC : Item → String
+  | .resp r => "R[" ++ "/".intercalate (r.frames.map fmtFrameC) ++ "]" ++ fmtErr r.error
+  | it => fmtItem it
+
+def fmtItemsC (l : List Item) : String :=
+  if l.any (· == .panic) then "PANIC" else "|".intercalate (l.map fmtItemC)
+
 def fmtConnect : ConnectResult → String
   | .ok v => s!"ok:{hex v}"
   | .invalid => "invalid"
@@ -263,6 +280,30 @@ def handle (toks : List String) (impl : String) : Verdict :=
         else "ok"
       { model := model ++ "#" ++ reads, oracle, branch := branchOf items stream chunks.length }
     | _, _, _, _ => bad "proto.recv-args"
+  | ["proto.bigbin", fl, sz, cnt, fh, tm, ex] =>
+    match sz.toNat?, cnt.toNat?, (if fh == "-" then some [] else unhex fh), parseTerm tm, ex.toNat? with
+    | some size, some count, some follower, some term, some extra =>
+      let payload : Bytes := (List.range size).map fun i => UInt8.ofNat ((i * 7 + 3) % 256)
+      let one : Bytes := str s!"binary: {size}\n" ++ payload ++ str "\nOK\n"
+      let stream := (List.replicate count one).flatten ++ follower
+      let items := runModel fl [stream] term extra
+      let model := fmtItemsC items
+      -- specification side, without decoding megabytes a second time: `count` responses of one frame
+      -- holding exactly the payload, then what the follower decodes to
+      let payloadStr := fmtBinC payload
+      let want : List String :=
+        (List.replicate count ("R[_;" ++ payloadStr ++ "]E{}")) ++ (runWhole follower term).map fmtItemC
+      let implList := if implItems.isEmpty then [] else implItems.splitOn "|"
+      let sessionPart := implList.take (implList.length - extra)
+      let oracle :=
+        if implItems == "PANIC" then "fail:panic"
+        else if implItems == "HANG" then "fail:hang"
+        else if sessionPart != want then "fail:differs-from-whole-stream-decoding"
+        else if (implList.drop (implList.length - extra)).any (fun x => some x != sessionPart.getLast?) then
+          "fail:result-after-the-end-differs-from-the-end"
+        else "ok"
+      { model := model ++ "#" ++ reads, oracle, branch := s!"bigbin-{fl}-{count}x{size}" }
+    | _, _, _, _, _ => bad "proto.bigbin-args"
   | ["proto.flaky", fl, sh, seg, tm, ex] =>
     match unhex sh, parseSegF seg, parseTerm tm, ex.toNat? with
     | some stream, some segf, some term, some extra =>
